@@ -372,6 +372,11 @@ struct SrcInner {
     /// Sets of the retained previous states, oldest first; `chain[len-k]` is
     /// the set at `serial - k`.
     chain: Vec<u8>,
+    /// The serial of each retained previous state (parallel to `chain`). As
+    /// long as the serial moves by +1 per update `chain_serial[len-k]` is
+    /// `serial - k`; the `J` events of the sequence spaces move it by any
+    /// amount, so a diff is looked up by the serial the client names.
+    chain_serial: Vec<u32>,
     /// Every state the source ever was in -> the set it reported for it.
     record: BTreeMap<(u16, u32), u8>,
     /// 0 = serial far below the wrap, 1 = serial is 2^32-1, 2 = wrapped.
@@ -418,18 +423,44 @@ impl SrcInner {
     }
     fn update(&mut self, set: u8, keep_diff: bool) {
         self.inc_check();
-        if keep_diff {
-            self.chain.push(self.cur);
-            if self.chain.len() > self.cap { self.chain.remove(0); }
-        } else {
-            self.chain.clear();
-        }
+        self.retain(keep_diff);
         self.cur = set;
         self.serial = self.serial.wrapping_add(1);
         if self.epoch == 1 { self.epoch = 2 }
         self.remember();
     }
-    fn drop_diffs(&mut self) { self.chain.clear() }
+    /// Keeps the current state as a diff base (oldest dropped beyond `cap`)
+    /// or forgets all of them.
+    fn retain(&mut self, keep_diff: bool) {
+        if keep_diff {
+            self.chain.push(self.cur);
+            self.chain_serial.push(self.serial);
+            if self.chain.len() > self.cap { self.chain.remove(0); self.chain_serial.remove(0); }
+        } else {
+            self.drop_diffs();
+        }
+    }
+    /// `J` event of the sequence spaces: the serial moves by `delta` mod 2^32
+    /// (forwards, by half the number circle, backwards), in the same session
+    /// with the diff base kept or dropped, or into a new session.
+    fn jump(&mut self, delta: u32, keep_diff: bool, new_session: bool, set: u8) {
+        if delta == 1 && !new_session { self.inc_check() }
+        if delta <= 0x7FFF_FFFF && Serial(self.serial).add(delta).0 != self.serial.wrapping_add(delta) {
+            self.api_faults.push(format!("Serial({}).add({delta}) = {}", self.serial, Serial(self.serial).add(delta)));
+        }
+        if new_session { self.session = self.session.wrapping_add(1); self.drop_diffs(); } else { self.retain(keep_diff) }
+        self.cur = set;
+        self.serial = self.serial.wrapping_add(delta);
+        self.remember();
+    }
+    /// The retained sets from the state with this serial (same session) up
+    /// to, excluding, the current one; `None` if no diff can be served.
+    fn path_from(&self, serial: u32) -> Option<Vec<u8>> {
+        if serial == self.serial { return Some(Vec::new()) }
+        let p = self.chain_serial.iter().rposition(|s| *s == serial)?;
+        Some(self.chain[p..].to_vec())
+    }
+    fn drop_diffs(&mut self) { self.chain.clear(); self.chain_serial.clear() }
     fn begin_step(&mut self, armed: Option<(u8, u8)>) {
         self.armed = armed; self.calls = 0; self.fired = None; self.timing_asked_in = None;
         self.timing_calls.clear(); self.armed_after_timing = None;
@@ -466,13 +497,13 @@ impl SrcInner {
         self.session = self.session.wrapping_add(1);
         self.serial = RESTART_SERIAL;
         self.epoch = 0;
-        self.chain.clear();
+        self.drop_diffs();
         self.remember();
     }
     fn wrap(&mut self) {
         self.serial = 0xFFFF_FFFF;
         self.epoch = 1;
-        self.chain.clear();
+        self.drop_diffs();
         self.remember();
     }
 }
@@ -585,9 +616,7 @@ impl PayloadSource for Source {
         let mut s = self.0.lock().unwrap();
         s.tick("diff");
         if state.session() != s.session { return None }
-        let behind = s.serial.wrapping_sub(state.serial().0) as usize;
-        if behind > s.chain.len() { return None }
-        let mut path: Vec<u8> = s.chain[s.chain.len() - behind..].to_vec();
+        let mut path: Vec<u8> = s.path_from(state.serial().0)?;
         path.push(s.cur);
         let mut ops: Vec<(Item, Action)> = Vec::new();
         match s.style {
@@ -643,9 +672,25 @@ struct Target {
     /// an announcement of something present
     odd_withdraw: u64,
     odd_announce: u64,
+    /// failure injection of the `rtr.apply_failure` space (none elsewhere)
+    ctl: Option<Arc<Mutex<FailCtl>>>,
 }
 
-struct Update { reset: bool, ops: Vec<(Action, Payload)>, faults: Vec<String>, fail: Option<PayloadError> }
+/// A target that rejects what it is given: the `push`-th `push_update` call
+/// or the `apply`-th `apply` call (counted over the whole scenario, from 0)
+/// returns the error, once. A rejected `apply` leaves the data untouched.
+#[derive(Default)]
+struct FailCtl {
+    fail_push: Option<u32>,
+    fail_apply: Option<u32>,
+    kind: Option<PayloadError>,
+    pushes: u32,
+    applies: u32,
+    starts: u32,
+    fired: Option<String>,
+}
+
+struct Update { reset: bool, ops: Vec<(Action, Payload)>, faults: Vec<String>, fail: Option<PayloadError>, ctl: Option<Arc<Mutex<FailCtl>>> }
 
 /// Differential accessor checks on one (action, payload) pair: no expected
 /// values are written down, every accessor is compared with its siblings.
@@ -690,6 +735,11 @@ fn accessor_sweep(action: Action, p: &Payload, faults: &mut Vec<String>) {
 impl PayloadUpdate for Update {
     fn push_update(&mut self, action: Action, payload: Payload) -> Result<(), PayloadError> {
         accessor_sweep(action, &payload, &mut self.faults);
+        if let Some(ctl) = &self.ctl {
+            let mut c = ctl.lock().unwrap();
+            let i = c.pushes; c.pushes += 1;
+            if c.fail_push == Some(i) { c.fired = Some(format!("push_update #{i}")); return Err(c.kind.unwrap()) }
+        }
         self.ops.push((action, payload));
         Ok(())
     }
@@ -697,9 +747,17 @@ impl PayloadUpdate for Update {
 
 impl PayloadTarget for Target {
     type Update = Update;
-    fn start(&mut self, reset: bool) -> Update { Update { reset, ops: Vec::new(), faults: Vec::new(), fail: None } }
+    fn start(&mut self, reset: bool) -> Update {
+        if let Some(ctl) = &self.ctl { ctl.lock().unwrap().starts += 1 }
+        Update { reset, ops: Vec::new(), faults: Vec::new(), fail: None, ctl: self.ctl.clone() }
+    }
     fn apply(&mut self, update: Update, timing: Timing) -> Result<(), PayloadError> {
         if let Some(err) = update.fail { return Err(err) }   // only the `E` event builds such an update
+        if let Some(ctl) = &self.ctl {
+            let mut c = ctl.lock().unwrap();
+            let i = c.applies; c.applies += 1;
+            if c.fail_apply == Some(i) { c.fired = Some(format!("apply #{i}")); return Err(c.kind.unwrap()) }
+        }
         if update.reset { self.data = Data::default() }
         let (mut v4_ops, mut v6_ops) = (0, 0);
         for (action, payload) in &update.ops {
@@ -1280,6 +1338,25 @@ struct Conn {
 }
 
 async fn connect(cfg: &Cfg, src: &Source, notify: &NotifySender, target: Target, state: Option<State>) -> Conn {
+    connect_via(None, cfg, src, notify, target, state).await
+}
+
+/// One long-lived `Server` whose listener yields a new socket whenever the
+/// harness connects a client: several clients then really are connections of
+/// ONE server (the sequence spaces use it; the history space starts a server
+/// per connection, which shares the same `NotifySender` and source).
+struct Hub { tx: tokio::sync::mpsc::UnboundedSender<Sock> }
+
+fn hub(src: &Source, notify: &NotifySender) -> Hub {
+    let (tx, rx) = tokio::sync::mpsc::unbounded_channel::<Sock>();
+    let listener = Box::pin(futures_util::stream::unfold(rx, |mut rx| async move {
+        rx.recv().await.map(|s| (Ok::<Sock, std::io::Error>(s), rx))
+    }));
+    tokio::spawn(Server::new(listener, notify.clone(), src.clone()).run());
+    Hub { tx }
+}
+
+async fn connect_via(hub: Option<&Hub>, cfg: &Cfg, src: &Source, notify: &NotifySender, target: Target, state: Option<State>) -> Conn {
     let obs = Arc::new(Mutex::new(Obs::default()));
     let consumed = Arc::new(AtomicU64::new(0));
     let (c2s, s2c) = cfg.link.caps();
@@ -1291,8 +1368,14 @@ async fn connect(cfg: &Cfg, src: &Source, notify: &NotifySender, target: Target,
     tokio::spawn(proxy_c2s(pc_end.rd, ps_end.wr, tx.clone(), cfg.limit, cfg.mode, obs.clone()));
     tokio::spawn(proxy_from_server(ps_end.rd, tx, obs.clone()));
     tokio::spawn(proxy_to_client(pc_end.wr, rx, obs.clone()));
-    let listener = futures_util::stream::iter(vec![Ok::<Sock, std::io::Error>(Sock { io: s_end, obs: obs.clone() })]);
-    tokio::spawn(Server::new(listener, notify.clone(), src.clone()).run());
+    let server_sock = Sock { io: s_end, obs: obs.clone() };
+    match hub {
+        Some(h) => { let _ = h.tx.send(server_sock); }
+        None => {
+            let listener = futures_util::stream::iter(vec![Ok::<Sock, std::io::Error>(server_sock)]);
+            tokio::spawn(Server::new(listener, notify.clone(), src.clone()).run());
+        }
+    }
     let sock = CSock { io: c_end, consumed: consumed.clone() };
     let client = if cfg.uses_default_ctor() { Client::new(sock, target, state) }
         else { Client::with_initial_version(cfg.civ, sock, target, state) };
@@ -1304,6 +1387,7 @@ fn initial_source(cfg: &Cfg) -> SrcInner {
     let mut s = SrcInner {
         session: SESSION0, serial: ROOT_SERIAL0 + 2, cur: ROOT_SETS[2],
         chain: if cfg.init == Init::TwoBehindNoDiffs { vec![ROOT_SETS[1]] } else { vec![ROOT_SETS[0], ROOT_SETS[1]] },
+        chain_serial: if cfg.init == Init::TwoBehindNoDiffs { vec![ROOT_SERIAL0 + 1] } else { vec![ROOT_SERIAL0, ROOT_SERIAL0 + 1] },
         record: BTreeMap::new(), epoch: 0, style: cfg.style, order: cfg.order, cap: cfg.cap as usize, collision: false,
         armed: None, calls: 0, fired: None, timing_asked_in: None,
         timing_calls: Vec::new(), armed_after_timing: None, api_faults: Vec::new(),
@@ -1349,11 +1433,7 @@ fn compute_key(cfg: &Cfg, src: &Source, conn: &Conn) -> (Key, Abs, Vec<String>) 
     let pos = match conn.client.state() {
         None => Pos::NoState,
         Some(st) if st.session() != s.session => Pos::OtherSession,
-        Some(st) => {
-            let behind = s.serial.wrapping_sub(st.serial().0) as usize;
-            if behind <= s.chain.len() { Pos::InChain(s.chain[s.chain.len() - behind..].to_vec()) }
-            else { Pos::SameSessionNoDiff }
-        }
+        Some(st) => match s.path_from(st.serial().0) { Some(p) => Pos::InChain(p), None => Pos::SameSessionNoDiff },
     };
     let o = conn.obs.lock().unwrap();
     if o.garbage { mach.push("proxy saw an unframeable octet stream".to_string()) }
@@ -1968,6 +2048,761 @@ fn scale_space(ctx: &Ctx, thorough: bool) {
 }
 
 // ======================================================================
+// The sequence spaces: serial distance, two clients, a target that rejects,
+// abandoned steps
+// ======================================================================
+//
+// The history space above canonicalises states under the assumption that
+// client and server only compare and copy serial numbers. These spaces do
+// not assume it: they enumerate short scripted sequences in full (no state
+// merging), with the serial DISTANCE between the client's stored state and
+// the state the server names in End of Data as a dimension, and with the
+// things a sweep of independent steps cannot see: what an earlier step left
+// behind (a step the target rejected, a step future dropped while Pending)
+// and who else talks to the same server. Every client step of a sequence
+// that finishes is judged by the oracles of the property, against the state
+// named in the End of Data the client consumed in that step.
+
+/// What the harness does with a client whose step failed or was abandoned.
+#[derive(Clone, Copy, Debug, PartialEq, Eq, Hash, PartialOrd, Ord)]
+enum Cont {
+    /// the next step is tried on the same connection; only when that fails
+    /// too, the harness reconnects
+    SameConn,
+    /// reconnect at once with `client.state()` and the target, the way the
+    /// `Client::new` documentation prescribes
+    Reconnect,
+}
+
+#[derive(Clone, Copy, Debug, PartialEq, Eq, Hash, PartialOrd, Ord)]
+enum SOp {
+    /// the source's serial moves by `delta` mod 2^32; same session with the
+    /// diff base kept (`k`) or all diff bases dropped (`d`), or a new session
+    /// (`n`); the data moves on to the next set of `SET_CYCLE` (`c`) or stays (`u`)
+    Jump { delta: u32, keep: bool, new_session: bool, change: bool },
+    Notify,
+    /// client A (0) or B (1) performs one step by its route
+    Step(u8),
+    /// both clients step concurrently on the one thread (`join!`)
+    Both,
+    /// the client's step future is polled until it has returned Pending k
+    /// times and is then dropped
+    Cancel(u8, u16),
+}
+
+impl SOp {
+    fn render(self) -> String {
+        match self {
+            SOp::Jump { delta, keep, new_session, change } => format!("J{delta}{}{}",
+                if new_session { 'n' } else if keep { 'k' } else { 'd' }, if change { 'c' } else { 'u' }),
+            SOp::Notify => "N".into(),
+            SOp::Step(i) => format!("S{}", (b'A' + i) as char),
+            SOp::Both => "SAB".into(),
+            SOp::Cancel(i, k) => format!("X{}@{k}", (b'A' + i) as char),
+        }
+    }
+    fn parse(s: &str) -> Option<SOp> {
+        match s {
+            "N" => Some(SOp::Notify), "SA" => Some(SOp::Step(0)), "SB" => Some(SOp::Step(1)), "SAB" => Some(SOp::Both),
+            _ if s.starts_with('X') => {
+                let (who, k) = s[1..].split_once('@')?;
+                let i = match who { "A" => 0, "B" => 1, _ => return None };
+                Some(SOp::Cancel(i, k.parse().ok()?))
+            }
+            _ if s.starts_with('J') && s.len() >= 4 => {
+                let (num, flags) = s[1..].split_at(s.len() - 3);
+                let f: Vec<char> = flags.chars().collect();
+                let (keep, new_session) = match f[0] { 'k' => (true, false), 'd' => (false, false), 'n' => (false, true), _ => return None };
+                let change = match f[1] { 'c' => true, 'u' => false, _ => return None };
+                Some(SOp::Jump { delta: num.parse().ok()?, keep, new_session, change })
+            }
+            _ => None,
+        }
+    }
+    fn is_step(self) -> bool { matches!(self, SOp::Step(_) | SOp::Both | SOp::Cancel(..)) }
+}
+
+/// The data walks through all eight sets; the root holds set 6.
+const SET_CYCLE: [u8; 8] = [6, 1, 7, 4, 5, 2, 3, 0];
+const SEQ_ROOT_SET: u8 = 6;
+fn next_set(cur: u8) -> u8 {
+    let p = SET_CYCLE.iter().position(|s| *s == cur).unwrap();
+    SET_CYCLE[(p + 1) % SET_CYCLE.len()]
+}
+
+/// One client of a scenario.
+#[derive(Clone, Copy, Debug, PartialEq, Eq, Hash, PartialOrd, Ord)]
+struct SClient { civ: u8, limit: u8, route: Route,
+    /// starts in the source's root state with the matching data (else: no state, no data)
+    current: bool }
+
+#[derive(Clone, Debug, PartialEq, Eq, Hash, PartialOrd, Ord)]
+struct Scn {
+    space: &'static str,
+    /// the source's serial at the root
+    base: u32,
+    style: Style,
+    order: Order,
+    link: Transport,
+    clients: Vec<SClient>,
+    ops: Vec<SOp>,
+    /// client A's target rejects: (true: the n-th `apply` / false: the n-th `push_update`, n, error)
+    fail: Option<(bool, u32, u8)>,
+    cont: Cont,
+}
+
+const FAIL_KINDS: [PayloadError; 4] = [PayloadError::Corrupt, PayloadError::DuplicateAnnounce, PayloadError::Internal, PayloadError::UnknownWithdraw];
+const SEQ_SPACES: [&str; 4] = ["dist", "pair", "fail", "cancel"];
+
+impl Scn {
+    fn render(&self) -> String { self.render_upto(self.ops.len()) }
+    /// The scenario cut after its first `n` operations (still a scenario).
+    fn render_upto(&self, n: usize) -> String {
+        let clients: Vec<String> = self.clients.iter().map(|c| format!("{}/{}/{}/{}", c.civ, c.limit, c.route.name(), if c.current { "current" } else { "none" })).collect();
+        let ops: Vec<String> = self.ops[..n].iter().map(|o| o.render()).collect();
+        format!("seq space={} base={} style={} order={} link={} clients={} cont={}{} ops={}", self.space, self.base,
+            match self.style { Style::Net => "net", Style::Chained => "chained" }, self.order.name(), self.link.name(), clients.join(","),
+            match self.cont { Cont::SameConn => "same", Cont::Reconnect => "reconnect" },
+            match self.fail { Some((a, n, k)) => format!(" fail={}#{n}:{:?}", if a { "apply" } else { "push" }, FAIL_KINDS[k as usize]), None => String::new() },
+            ops.join("."))
+    }
+    fn parse(s: &str) -> Option<Scn> {
+        let mut scn = Scn { space: "dist", base: 0, style: Style::Net, order: Order::Grouped, link: Transport::Roomy, clients: vec![], ops: vec![], fail: None, cont: Cont::Reconnect };
+        for tok in s.split_whitespace().skip(1) {
+            let (k, v) = tok.split_once('=')?;
+            match k {
+                "space" => scn.space = SEQ_SPACES.iter().copied().find(|x| *x == v)?,
+                "base" => scn.base = v.parse().ok()?,
+                "style" => scn.style = match v { "net" => Style::Net, "chained" => Style::Chained, _ => return None },
+                "order" => scn.order = ORDERS.iter().copied().find(|o| o.name() == v)?,
+                "link" => scn.link = TRANSPORTS.iter().copied().find(|o| o.name() == v)?,
+                "cont" => scn.cont = match v { "same" => Cont::SameConn, "reconnect" => Cont::Reconnect, _ => return None },
+                "clients" => for c in v.split(',') {
+                    let p: Vec<&str> = c.split('/').collect();
+                    if p.len() != 4 { return None }
+                    scn.clients.push(SClient { civ: p[0].parse().ok()?, limit: p[1].parse().ok()?, route: ROUTES.iter().copied().find(|r| r.name() == p[2])?,
+                        current: match p[3] { "current" => true, "none" => false, _ => return None } });
+                },
+                "fail" => {
+                    let (what, kind) = v.split_once(':')?;
+                    let (call, n) = what.split_once('#')?;
+                    let k = FAIL_KINDS.iter().position(|x| format!("{x:?}") == kind)? as u8;
+                    scn.fail = Some((match call { "apply" => true, "push" => false, _ => return None }, n.parse().ok()?, k));
+                }
+                "ops" => for o in v.split('.').filter(|o| !o.is_empty()) { scn.ops.push(SOp::parse(o)?) },
+                _ => return None,
+            }
+        }
+        if scn.clients.is_empty() || scn.clients.len() > 2 { return None }
+        Some(scn)
+    }
+    fn cfg_of(&self, i: usize) -> Cfg {
+        let c = self.clients[i];
+        Cfg { civ: c.civ, limit: c.limit, mode: ProxyMode::ErrorReply, style: self.style, cap: SEQ_CAP, order: self.order, link: self.link, route: c.route,
+            init: if c.current { Init::Current } else { Init::NoState } }
+    }
+    /// A source must not use one (session, serial) for two different data
+    /// sets: such sequences (e.g. +2^31 twice) are not enumerated.
+    fn reuses_a_state(&self) -> bool {
+        let mut seen: BTreeSet<(u32, u32)> = BTreeSet::new();
+        let (mut sess, mut serial) = (0u32, self.base);
+        seen.insert((sess, serial));
+        for op in &self.ops {
+            if let SOp::Jump { delta, new_session, .. } = *op {
+                if new_session { sess += 1 }
+                serial = serial.wrapping_add(delta);
+                if !seen.insert((sess, serial)) { return true }
+            }
+        }
+        false
+    }
+}
+
+/// Retained diff bases in the sequence spaces (more than any sequence builds up).
+const SEQ_CAP: u8 = 6;
+
+/// Counts the times the wrapped future returned Pending; at the `limit`-th
+/// it gives up, so that the caller drops the future at that await point.
+struct PollLimit<F> { fut: Pin<Box<F>>, limit: u16, seen: u16 }
+impl<F: std::future::Future> std::future::Future for PollLimit<F> {
+    type Output = Option<F::Output>;
+    fn poll(self: Pin<&mut Self>, cx: &mut Context<'_>) -> Poll<Self::Output> {
+        let me = self.get_mut();
+        match me.fut.as_mut().poll(cx) {
+            Poll::Ready(v) => Poll::Ready(Some(v)),
+            Poll::Pending => {
+                me.seen = me.seen.saturating_add(1);
+                if me.seen >= me.limit { Poll::Ready(None) } else { Poll::Pending }
+            }
+        }
+    }
+}
+
+#[derive(Clone, Debug, PartialEq, Eq)]
+struct SeqStep {
+    /// index of the operation in the scenario
+    op: usize,
+    who: u8,
+    result: StepResult,
+    /// the future was dropped while Pending (then `result` is meaningless)
+    cancelled: bool,
+    pendings: u16,
+    class: String,
+    transcript: String,
+    changed: bool,
+    /// serial distance (mod 2^32) from the stored state to the End-of-Data
+    /// state, if both are of one session
+    distance: Option<u32>,
+    verdicts: Vec<(&'static str, String)>,
+    /// what the failure injection hit during this step
+    fired: Option<String>,
+}
+
+#[derive(Clone, Debug, PartialEq, Eq)]
+struct SeqOut { steps: Vec<SeqStep>, machinery: Vec<String>, api_faults: Vec<String>, pushes: u32, applies: u32 }
+
+struct Pre { m_c2s: usize, consumed: u64, state: Option<(u16, u32)>, data: Data }
+
+fn seq_pre(conn: &mut Conn) -> Pre {
+    conn.client.target_mut().applied.clear();
+    Pre { m_c2s: conn.obs.lock().unwrap().c2s.len(), consumed: conn.consumed.load(Ordering::Relaxed),
+        state: conn.client.state().map(|s| (s.session(), s.serial().0)), data: conn.client.target().data.clone() }
+}
+
+fn distance_class(d: Option<u32>, had_state: bool, same_session: bool) -> String {
+    match d {
+        _ if !had_state => "no-stored-state".into(),
+        _ if !same_session => "other-session".into(),
+        None => "?".into(),
+        Some(0) => "0".into(), Some(1) => "+1".into(), Some(2) => "+2".into(),
+        Some(0x7FFF_FFFF) => "+2^31-1".into(), Some(0x8000_0000) => "2^31".into(), Some(0x8000_0001) => "-(2^31-1)".into(),
+        Some(0xFFFF_FFFF) => "-1".into(), Some(0xFFFF_FFFE) => "-2".into(),
+        Some(x) if x < 0x7FFF_FFFF => "+3..2^31-2".into(),
+        Some(_) => "-(2^31-2)..-3".into(),
+    }
+}
+
+/// Judges one step of a sequence: exactly the three clauses of the property,
+/// against the state named in the LAST End of Data the client consumed during
+/// the step (after an abandoned step octets of an earlier response may still
+/// be in the pipe; whatever the client takes for its answer, the clauses
+/// speak about the End of Data it took).
+fn seq_judge(op: usize, who: u8, src: &Source, conn: &Conn, pre: &Pre, result: StepResult, cancelled: bool, pendings: u16) -> SeqStep {
+    let s = src.0.lock().unwrap();
+    let o = conn.obs.lock().unwrap();
+    let consumed = conn.consumed.load(Ordering::Relaxed);
+    let state_after = conn.client.state().map(|s| (s.session(), s.serial().0));
+    let data_after = &conn.client.target().data;
+    let reported_timing = conn.client.target().reported_timing;
+    let mut t: Vec<String> = Vec::new();
+    for f in &o.c2s[pre.m_c2s..] {
+        t.push(format!(">{}v{}{}", type_name(f.typ), f.ver, if f.typ == 1 && f.body.len() == 4 {
+            format!("({},{})", f.sess, u32::from_be_bytes([f.body[0], f.body[1], f.body[2], f.body[3]])) } else { String::new() }));
+    }
+    let mut eod = None;
+    let mut taken: Vec<u8> = Vec::new();
+    for f in o.s2c.iter() {
+        let end = f.off + 8 + f.body.len() as u64;
+        if end <= pre.consumed || end > consumed { continue }
+        taken.push(f.typ);
+        let e = if f.typ == 7 { parse_eod(f) } else { None };
+        t.push(format!("<{}{}v{}{}", if f.from_proxy { "proxy:" } else { "" }, type_name(f.typ), f.ver,
+            match e { Some(e) => format!("({},{})", e.1, e.2), None if f.typ == 10 => format!("(code {})", f.sess), None => String::new() }));
+        if e.is_some() { eod = e }
+    }
+    let transcript = t.join(" ");
+    let q: Vec<u8> = o.c2s[pre.m_c2s..].iter().map(|f| f.typ).collect();
+    let payloads = taken.iter().filter(|t| matches!(t, 4 | 6 | 9 | 11)).count();
+    let kind = if taken.contains(&8) { "serial-query->cache-reset->reset-query" }
+        else if q.contains(&1) && payloads == 0 { "serial-query:empty-diff" }
+        else if q.contains(&1) { "serial-query:diff" }
+        else if q.contains(&2) { "reset-query" }
+        else if q.contains(&10) { "error-report-only" }
+        else { "no-query" };
+    let distance = match (pre.state, eod) { (Some(a), Some(e)) if a.0 == e.1 => Some(e.2.wrapping_sub(a.1)), _ => None };
+    let mut verdicts: Vec<(&'static str, String)> = Vec::new();
+    let finished = result == StepResult::Ok && !cancelled;
+    if finished {
+        match (state_after, eod) {
+            (Some(a), Some(e)) if a == (e.1, e.2) => {}
+            (a, e) => verdicts.push(("C06.state.eod", format!(
+                "client.state() = {a:?} (before the step: {:?}) but the End of Data of this exchange named {:?} (exchange: {transcript})", pre.state, e.map(|e| (e.1, e.2))))),
+        }
+        if let Some(e) = eod {
+            match s.record.get(&(e.1, e.2)).copied() {
+                None => verdicts.push(("C06.data.equals_source", format!("End of Data names {:?}, a state the source never reported", (e.1, e.2)))),
+                Some(set) => {
+                    let want = expected_data(set, e.0);
+                    if *data_after != want {
+                        verdicts.push(("C06.data.equals_source", format!(
+                            "state {:?} (source set #{set}) at version {}: target holds {} but the source reported {} (previous data {}, stored state before the step {:?}, exchange: {transcript})",
+                            (e.1, e.2), e.0, data_after.render(), want.render(), pre.data.render(), pre.state)));
+                    }
+                    if e.0 >= 1 && reported_timing != Some(timing_of(set)) {
+                        verdicts.push(("C06.timing.equals_source", format!(
+                            "version {}: client reports timing {reported_timing:?}, source's is {:?} (exchange: {transcript})", e.0, timing_of(set))));
+                    }
+                }
+            }
+        }
+    }
+    let class = if cancelled { format!("step:abandoned-while-pending:{kind}") } else {
+        match &result {
+            StepResult::Ok => format!("step:ok:{kind}:distance={}", distance_class(distance, pre.state.is_some(), distance.is_some())),
+            StepResult::Err(m) => format!("step:err:{}", rpki_verif::trunc(m, 60)),
+            StepResult::Hang => "step:hang(horizon exceeded)".to_string(),
+        }
+    };
+    let changed = state_after != pre.state || *data_after != pre.data;
+    SeqStep { op, who, result, cancelled, pendings, class, transcript, changed, distance, verdicts, fired: None }
+}
+
+fn step_result(r: Result<Option<Result<(), std::io::Error>>, tokio::time::error::Elapsed>) -> (StepResult, bool) {
+    match r {
+        Ok(Some(Ok(()))) => (StepResult::Ok, false),
+        Ok(Some(Err(e))) => (StepResult::Err(format!("{:?}: {}", e.kind(), e)), false),
+        Ok(None) => (StepResult::Ok, true),
+        Err(_) => (StepResult::Hang, false),
+    }
+}
+
+async fn route_step(client: &mut Client<CSock, Target>, route: Route) -> Result<(), std::io::Error> {
+    match route {
+        Route::Step => client.step().await,
+        Route::UpdateApply => { let u = client.update().await?; client.apply(u).await }
+        Route::ResetApply => { let u = client.reset().await?; client.apply(u).await }
+    }
+}
+
+async fn seq_async(scn: Scn) -> SeqOut {
+    let src = Source(Arc::new(Mutex::new(SrcInner {
+        session: SESSION0, serial: scn.base, cur: SEQ_ROOT_SET, chain: Vec::new(), chain_serial: Vec::new(),
+        record: BTreeMap::from([((SESSION0, scn.base), SEQ_ROOT_SET)]), epoch: 0, style: scn.style, order: scn.order, cap: SEQ_CAP as usize,
+        collision: false, armed: None, calls: 0, fired: None, timing_asked_in: None, timing_calls: Vec::new(), armed_after_timing: None,
+        api_faults: Vec::new(),
+    })));
+    let mut notify = NotifySender::new();
+    let hub = hub(&src, &notify);
+    let ctl = Arc::new(Mutex::new(FailCtl::default()));
+    if let Some((apply, n, k)) = scn.fail {
+        let mut c = ctl.lock().unwrap();
+        if apply { c.fail_apply = Some(n) } else { c.fail_push = Some(n) }
+        c.kind = Some(FAIL_KINDS[k as usize]);
+    }
+    let cfgs: Vec<Cfg> = (0..scn.clients.len()).map(|i| scn.cfg_of(i)).collect();
+    let mut conns: Vec<Conn> = Vec::new();
+    for (i, c) in scn.clients.iter().enumerate() {
+        let v = c.civ.min(c.limit);
+        let target = Target { data: if c.current { expected_data(SEQ_ROOT_SET, v) } else { Data::default() },
+            ctl: if i == 0 { Some(ctl.clone()) } else { None }, ..Default::default() };
+        let state = if c.current { Some(State::from_parts(SESSION0, Serial(scn.base))) } else { None };
+        conns.push(connect_via(Some(&hub), &cfgs[i], &src, &notify, target, state).await);
+    }
+    // a connection on which a step has failed or was abandoned
+    let mut tainted = vec![false; conns.len()];
+    let mut steps: Vec<SeqStep> = Vec::new();
+    let mut machinery: Vec<String> = Vec::new();
+    for (idx, op) in scn.ops.iter().enumerate() {
+        let mut stepped: Vec<usize> = Vec::new();
+        match *op {
+            SOp::Jump { delta, keep, new_session, change } => {
+                let mut s = src.0.lock().unwrap();
+                let set = if change { next_set(s.cur) } else { s.cur };
+                s.jump(delta, keep, new_session, set);
+            }
+            SOp::Notify => { notify.notify(); settle().await; }
+            SOp::Step(i) | SOp::Cancel(i, _) => {
+                let i = i as usize;
+                if i >= conns.len() { machinery.push(format!("operation {} names a client the scenario does not have", op.render())); break }
+                let limit = if let SOp::Cancel(_, k) = *op { k.max(1) } else { u16::MAX };
+                let pre = seq_pre(&mut conns[i]);
+                ctl.lock().unwrap().fired = None;
+                let route = cfgs[i].route;
+                let (r, seen) = {
+                    let mut pl = PollLimit { fut: Box::pin(route_step(&mut conns[i].client, route)), limit, seen: 0 };
+                    let r = tokio::time::timeout(HORIZON, &mut pl).await;
+                    (r, pl.seen)
+                };
+                settle().await;
+                let (result, cancelled) = step_result(r);
+                let mut st = seq_judge(idx, i as u8, &src, &conns[i], &pre, result, cancelled, seen);
+                if i == 0 { st.fired = ctl.lock().unwrap().fired.take() }
+                steps.push(st);
+                stepped.push(i);
+            }
+            SOp::Both => {
+                if conns.len() != 2 { machinery.push("SAB needs two clients".into()); break }
+                let pre: Vec<Pre> = conns.iter_mut().map(seq_pre).collect();
+                let (ra, rb) = (cfgs[0].route, cfgs[1].route);
+                let ((r0, n0), (r1, n1)) = {
+                    let (a, b) = conns.split_at_mut(1);
+                    let mut pa = PollLimit { fut: Box::pin(route_step(&mut a[0].client, ra)), limit: u16::MAX, seen: 0 };
+                    let mut pb = PollLimit { fut: Box::pin(route_step(&mut b[0].client, rb)), limit: u16::MAX, seen: 0 };
+                    let (x, y) = tokio::join!(tokio::time::timeout(HORIZON, &mut pa), tokio::time::timeout(HORIZON, &mut pb));
+                    ((x, pa.seen), (y, pb.seen))
+                };
+                settle().await;
+                for (i, (r, n)) in [(r0, n0), (r1, n1)].into_iter().enumerate() {
+                    let (result, cancelled) = step_result(r);
+                    steps.push(seq_judge(idx, i as u8, &src, &conns[i], &pre[i], result, cancelled, n));
+                    stepped.push(i);
+                }
+            }
+        }
+        // what becomes of the connections that were just used
+        for i in stepped {
+            let st = steps.iter().rev().find(|s| s.who == i as u8).unwrap();
+            let closed_by_peer = conns[i].obs.lock().unwrap().cut_fired;
+            let bad = st.cancelled || st.result != StepResult::Ok;
+            let reconnect = closed_by_peer || (bad && (scn.cont == Cont::Reconnect || tainted[i]));
+            if bad { tainted[i] = true }
+            if reconnect {
+                let state = conns[i].client.state();
+                let old = conns.remove(i);
+                let target = old.client.into_target();
+                settle().await;
+                let c = connect_via(Some(&hub), &cfgs[i], &src, &notify, target, state).await;
+                conns.insert(i, c);
+                tainted[i] = false;
+            } else if !bad {
+                conns[i].ok_steps += 1;
+            }
+        }
+    }
+    let mut api_faults = {
+        let mut s = src.0.lock().unwrap();
+        if s.collision { machinery.push("source used one (session, serial) for two different sets".into()) }
+        std::mem::take(&mut s.api_faults)
+    };
+    for c in conns.iter_mut() {
+        if c.obs.lock().unwrap().garbage { machinery.push("proxy saw an unframeable octet stream".into()) }
+        api_faults.extend(std::mem::take(&mut c.client.target_mut().api_faults));
+    }
+    api_faults.sort(); api_faults.dedup();
+    let c = ctl.lock().unwrap();
+    SeqOut { steps, machinery, api_faults, pushes: c.pushes, applies: c.applies }
+}
+
+fn seq_exec(scn: &Scn) -> Result<SeqOut, Vec<String>> {
+    PANICS.with(|p| p.borrow_mut().clear());
+    let scn2 = scn.clone();
+    let r = panic::catch_unwind(AssertUnwindSafe(move || {
+        let rt = tokio::runtime::Builder::new_current_thread().enable_time().start_paused(true).build().unwrap();
+        let e = rt.block_on(seq_async(scn2));
+        drop(rt);
+        e
+    }));
+    let panics = PANICS.with(|p| std::mem::take(&mut *p.borrow_mut()));
+    match r { Ok(o) if panics.is_empty() => Ok(o), Ok(_) => Err(panics), Err(_) => Err(if panics.is_empty() { vec!["panic".into()] } else { panics }) }
+}
+
+/// What the merge keeps of one executed scenario.
+#[derive(Default)]
+struct SeqTally {
+    evals: u64,
+    nontrivial: u64,
+    outcomes: BTreeMap<String, u64>,
+    /// (oracle, witness cut after the judged step, detail)
+    viols: Vec<(&'static str, String, String)>,
+    machinery: Vec<String>,
+    ok_steps: u64,
+    /// finished steps that followed a rejected / abandoned step of the same client
+    ok_after_bad: u64,
+    max_pendings: u16,
+    distances: BTreeSet<u32>,
+    sample: Option<String>,
+}
+
+impl SeqTally {
+    fn absorb(&mut self, other: SeqTally) {
+        self.evals += other.evals; self.nontrivial += other.nontrivial; self.ok_steps += other.ok_steps; self.ok_after_bad += other.ok_after_bad;
+        for (k, v) in other.outcomes { *self.outcomes.entry(k).or_insert(0) += v }
+        self.viols.extend(other.viols); self.machinery.extend(other.machinery);
+        self.max_pendings = self.max_pendings.max(other.max_pendings);
+        self.distances.extend(other.distances);
+        if self.sample.is_none() { self.sample = other.sample }
+    }
+}
+
+/// Executes one scenario and tallies it; `nontrivial` is the space's rule.
+fn seq_run(scn: &Scn, nontrivial: impl Fn(&SeqOut) -> bool) -> (SeqTally, Option<SeqOut>) {
+    let mut t = SeqTally { evals: 1, ..Default::default() };
+    match seq_exec(scn) {
+        Err(p) => {
+            *t.outcomes.entry("step:panic".into()).or_insert(0) += 1;
+            t.viols.push(("C06.step.no_panic", scn.render(), p.join(" | ")));
+            (t, None)
+        }
+        Ok(out) => {
+            for m in &out.machinery { t.machinery.push(format!("{}: {m}", scn.render())) }
+            for f in &out.api_faults { t.viols.push(("C06.api.accessors", scn.render(), f.clone())) }
+            let mut bad_before = vec![false; 2];
+            for s in &out.steps {
+                *t.outcomes.entry(s.class.clone()).or_insert(0) += 1;
+                t.max_pendings = t.max_pendings.max(s.pendings);
+                let finished = s.result == StepResult::Ok && !s.cancelled;
+                if finished {
+                    t.ok_steps += 1;
+                    if bad_before[s.who as usize] { t.ok_after_bad += 1 }
+                    if let Some(d) = s.distance { t.distances.insert(d); }
+                } else { bad_before[s.who as usize] = true }
+                for (o, d) in &s.verdicts { t.viols.push((o, scn.render_upto(s.op + 1), d.clone())) }
+            }
+            if nontrivial(&out) {
+                t.nontrivial = 1;
+                t.sample = Some(format!("{} => {}", scn.render(), out.steps.iter().map(|s| format!("[{}] {}", s.class, s.transcript)).collect::<Vec<_>>().join(" ; ")));
+            }
+            (t, Some(out))
+        }
+    }
+}
+
+/// Reports a finished space.
+fn seq_report(ctx: &Ctx, sp: &rpki_verif::Space, t: SeqTally, min_ok: u64, bound: &str) {
+    sp.evals(t.evals);
+    sp.nontrivial(t.nontrivial);
+    for (k, v) in &t.outcomes { sp.outcomes_n(k, *v) }
+    for m in t.machinery.iter().take(5) { ctx.machinery_error(m.clone()) }
+    // scenarios share prefixes: one judged step is reported once
+    let mut seen: BTreeSet<(&'static str, String)> = BTreeSet::new();
+    for (o, w, d) in t.viols { if seen.insert((o, w.clone())) { ctx.fail(o, w, d) } }
+    if t.ok_steps < min_ok { ctx.machinery_error(format!("vacuous: only {} client steps finished in a sequence space", t.ok_steps)) }
+    if let Some(s) = t.sample { sp.sample_str(|| s) }
+    sp.set("finished_client_steps_judged", json!(t.ok_steps));
+    sp.set("finished_steps_after_a_rejected_or_abandoned_step", json!(t.ok_after_bad));
+    sp.set("serial_distances_seen(stored state -> End of Data, mod 2^32)", json!(t.distances.iter().collect::<Vec<_>>()));
+    sp.set("max_pendings_of_one_step", json!(t.max_pendings));
+    sp.done(true, bound);
+}
+
+const DELTAS: [u32; 7] = [1, 2, 0x7FFF_FFFF, 0x8000_0000, 0x8000_0001, 0xFFFF_FFFE, 0xFFFF_FFFF];
+const BASES: [u32; 4] = [1000, 0xFFFF_FFFF, 0, 0x7FFF_FFFF];
+
+/// What the source may do between two client steps: nothing; one move by
+/// each delta as {same session, diff base kept, data changed / unchanged},
+/// {same session, diff bases dropped}, {new session}; a new session with the
+/// SAME serial (data changed / unchanged).
+fn single_gaps() -> Vec<Vec<SOp>> {
+    let mut v: Vec<Vec<SOp>> = vec![vec![]];
+    for d in DELTAS {
+        v.push(vec![SOp::Jump { delta: d, keep: true, new_session: false, change: true }]);
+        v.push(vec![SOp::Jump { delta: d, keep: true, new_session: false, change: false }]);
+        v.push(vec![SOp::Jump { delta: d, keep: false, new_session: false, change: true }]);
+        v.push(vec![SOp::Jump { delta: d, keep: false, new_session: true, change: true }]);
+    }
+    v.push(vec![SOp::Jump { delta: 0, keep: false, new_session: true, change: true }]);
+    v.push(vec![SOp::Jump { delta: 0, keep: false, new_session: true, change: false }]);
+    v
+}
+
+/// Two moves between two client steps (same session, diff bases kept, data
+/// changed both times): the distance is the sum, the diff spans two states.
+fn double_gaps() -> Vec<Vec<SOp>> {
+    let mut v = Vec::new();
+    for a in DELTAS { for b in DELTAS {
+        v.push(vec![SOp::Jump { delta: a, keep: true, new_session: false, change: true }, SOp::Jump { delta: b, keep: true, new_session: false, change: true }]);
+    }}
+    v
+}
+
+/// The follow-up gaps of the smaller products: nothing, the ordinary +1, half
+/// the circle, one back, a new session.
+fn few_gaps() -> Vec<Vec<SOp>> {
+    vec![vec![],
+        vec![SOp::Jump { delta: 1, keep: true, new_session: false, change: true }],
+        vec![SOp::Jump { delta: 0x8000_0000, keep: true, new_session: false, change: true }],
+        vec![SOp::Jump { delta: 0xFFFF_FFFF, keep: true, new_session: false, change: true }],
+        vec![SOp::Jump { delta: 1, keep: false, new_session: false, change: true }],
+        vec![SOp::Jump { delta: 1, keep: false, new_session: true, change: true }]]
+}
+
+fn rounds(gaps: &[&Vec<SOp>]) -> Vec<SOp> {
+    let mut ops = Vec::new();
+    for g in gaps { ops.extend_from_slice(g); ops.push(SOp::Step(0)); }
+    ops
+}
+
+/// `rtr.serial_distance`.
+fn distance_space(ctx: &Ctx, thorough: bool) {
+    let sp = ctx.space("rtr.serial_distance",
+        "every sequence root . (gap . client step) x 3 executed in full on the real Client and Server (no state merging): the source's root serial is 1000, 2^32-1, 0 or 2^31-1; a gap is nothing, or one move of the serial by +1, +2, +2^31-1, +2^31, +2^31+1, -2, -1 (mod 2^32; so also across 0 and across 2^31, forwards and BACKWARDS) in the same session with the diff base kept and the data changed or unchanged, or with all diff bases dropped, or into a new session, or a new session with the same serial; or two such moves (49 pairs, diff bases kept: the answer spans two states) [quick: pairs in the first or the second gap at root serial 1000; thorough: in the first two gaps at every root]; client initial version/proxy limit, public route (step / update+apply / reset+apply), client without state at the root and diff style (net / chained) vary on smaller products; sequences in which the source would use one (session, serial) for two data sets are left out; EVERY finished step of a sequence is judged (state == End of Data state, data == the source's set for that state, timing) — the follow-up steps show what a step left behind; non-trivial = sequences with at least two finished steps of which one adopted a state at a serial distance other than 0 or +1 in the same session");
+    let singles = single_gaps();
+    let doubles = double_gaps();
+    let few = few_gaps();
+    let mut wide: Vec<Vec<SOp>> = singles.clone(); wide.extend(doubles.iter().cloned());
+    let mut scns: Vec<Scn> = Vec::new();
+    let mk = |base: u32, style: Style, civ: u8, limit: u8, route: Route, current: bool, link: Transport, ops: Vec<SOp>| Scn {
+        space: "dist", base, style, order: Order::Grouped, link, clients: vec![SClient { civ, limit, route, current }], ops, fail: None, cont: Cont::Reconnect };
+    // (1) the main product: version 2, step(), roomy pipes, client current at the root
+    for &base in &BASES {
+        let styles: &[Style] = if thorough { &[Style::Net, Style::Chained] } else { &[Style::Net] };
+        for &style in styles {
+            if thorough {
+                for a in &wide { for b in &wide { for c in &singles { scns.push(mk(base, style, 2, 2, Route::Step, true, Transport::Roomy, rounds(&[a, b, c]))) } } }
+            } else if base == BASES[0] {
+                for a in &wide { for b in &singles { for c in &singles { scns.push(mk(base, style, 2, 2, Route::Step, true, Transport::Roomy, rounds(&[a, b, c]))) } } }
+                for a in &singles { for b in &doubles { for c in &singles { scns.push(mk(base, style, 2, 2, Route::Step, true, Transport::Roomy, rounds(&[a, b, c]))) } } }
+            } else {
+                for a in &singles { for b in &singles { for c in &singles { scns.push(mk(base, style, 2, 2, Route::Step, true, Transport::Roomy, rounds(&[a, b, c]))) } } }
+            }
+        }
+    }
+    // (2) the other version configurations, routes, a client without state, the
+    //     chained style (quick) and a narrow pipe: single gaps twice, then a few
+    let mut variants: Vec<(u8, u8, Route, bool, Style, Transport)> = Vec::new();
+    for civ in 0..=2u8 { for limit in 0..=2u8 { if (civ, limit) != (2, 2) { variants.push((civ, limit, Route::Step, true, Style::Net, Transport::Roomy)) } } }
+    variants.push((2, 2, Route::UpdateApply, true, Style::Net, Transport::Roomy));
+    variants.push((2, 2, Route::ResetApply, true, Style::Net, Transport::Roomy));
+    variants.push((1, 2, Route::ResetApply, true, Style::Net, Transport::Roomy));
+    variants.push((2, 2, Route::Step, false, Style::Net, Transport::Roomy));
+    variants.push((2, 2, Route::Step, true, Style::Chained, Transport::Roomy));
+    variants.push((2, 2, Route::Step, true, Style::Net, Transport::S7));
+    for &(civ, limit, route, current, style, link) in &variants {
+        let bases: &[u32] = if thorough { &BASES } else { &BASES[..2] };
+        for &base in bases {
+            let third: &Vec<Vec<SOp>> = if thorough { &singles } else { &few };
+            for a in &singles { for b in &singles { for c in third { scns.push(mk(base, style, civ, limit, route, current, link, rounds(&[a, b, c]))) } } }
+        }
+    }
+    let before = scns.len();
+    scns.retain(|s| !s.reuses_a_state());
+    let left_out = before - scns.len();
+    let tally = scns.par_iter().map(|scn| seq_run(scn, |out| {
+        let fin: Vec<&SeqStep> = out.steps.iter().filter(|s| s.result == StepResult::Ok && !s.cancelled).collect();
+        fin.len() >= 2 && fin.iter().any(|s| s.distance.is_some_and(|d| d > 1))
+    }).0).reduce(SeqTally::default, |mut a, b| { a.absorb(b); a });
+    sp.set("sequences_left_out(source would reuse a state)", json!(left_out));
+    sp.set("deltas", json!(DELTAS)); sp.set("root_serials", json!(BASES));
+    sp.set("gaps(single, double)", json!([singles.len(), doubles.len()]));
+    let n = scns.len();
+    seq_report(ctx, &sp, tally, 1000, &format!("{n} sequences of 3 rounds, every one executed"));
+}
+
+/// `rtr.two_clients`.
+fn pair_space(ctx: &Ctx, thorough: bool) {
+    let len = if thorough { 5 } else { 4 };
+    let sp = ctx.space("rtr.two_clients",
+        "two real clients A and B, each over its own connection (own proxy, own pipes) to ONE real Server::run with one NotifySender and one source, on one thread: every sequence of length 4 [thorough: 5] over {source update with the diff base kept; with all diff bases dropped; into a new session; notify; A steps; B steps; A and B step concurrently (join!, interleaved at every await point)} that contains a client step, for the initial versions (A, B) in 0..2 x 0..2, A current or without state at the root, B current, over roomy pipes and a 7-octet server->client pipe; every finished step of either client is judged by the three clauses against the End of Data it consumed; non-trivial = sequences in which both clients finished a step that changed their state or data");
+    let alphabet = [
+        SOp::Jump { delta: 1, keep: true, new_session: false, change: true },
+        SOp::Jump { delta: 1, keep: false, new_session: false, change: true },
+        SOp::Jump { delta: 1, keep: false, new_session: true, change: true },
+        SOp::Notify, SOp::Step(0), SOp::Step(1), SOp::Both,
+    ];
+    let mut seqs: Vec<Vec<SOp>> = vec![vec![]];
+    for _ in 0..len {
+        let mut next = Vec::new();
+        for s in &seqs { for a in alphabet { let mut t = s.clone(); t.push(a); next.push(t) } }
+        seqs = next;
+    }
+    seqs.retain(|s| s.iter().any(|o| o.is_step()));
+    let mut scns: Vec<Scn> = Vec::new();
+    for va in 0..=2u8 { for vb in 0..=2u8 { for a_current in [true, false] { for link in [Transport::Roomy, Transport::S7] {
+        for (n, ops) in seqs.iter().enumerate() {
+            // iteration order and route rotate over the sequences
+            let order = ORDERS[(n + va as usize) % 3];
+            let (ra, rb) = ([Route::Step, Route::UpdateApply][n % 2], [Route::Step, Route::UpdateApply, Route::ResetApply][(n / 2) % 3]);
+            scns.push(Scn { space: "pair", base: 1000, style: Style::Chained, order, link,
+                clients: vec![SClient { civ: va, limit: 2, route: ra, current: a_current }, SClient { civ: vb, limit: 2, route: rb, current: true }],
+                ops: ops.clone(), fail: None, cont: Cont::Reconnect });
+        }
+    }}}}
+    let tally = scns.par_iter().map(|scn| seq_run(scn, |out| {
+        (0..2u8).all(|w| out.steps.iter().any(|s| s.who == w && s.result == StepResult::Ok && s.changed))
+    }).0).reduce(SeqTally::default, |mut a, b| { a.absorb(b); a });
+    let n = scns.len();
+    seq_report(ctx, &sp, tally, 1000, &format!("{n} sequences of length {len}, every one executed"));
+}
+
+/// The gaps of the failure and cancellation spaces.
+fn plain_gaps() -> Vec<Vec<SOp>> {
+    vec![vec![],
+        vec![SOp::Jump { delta: 1, keep: true, new_session: false, change: true }],
+        vec![SOp::Jump { delta: 1, keep: false, new_session: false, change: true }],
+        vec![SOp::Jump { delta: 1, keep: false, new_session: true, change: true }]]
+}
+
+/// `rtr.rejecting_target`.
+fn failure_space(ctx: &Ctx, thorough: bool) {
+    let sp = ctx.space("rtr.rejecting_target",
+        "a target that rejects what it is handed: for every sequence root . (gap . client step) x 3 . step . step (gap: nothing / source update with the diff base kept / with the diff bases dropped / new session; client current or without state at the root; versions 2/2, 0/0, 2/1 [thorough: all nine]; routes step, update+apply, reset+apply) a clean run counts the push_update and apply calls, then EVERY one of them in turn returns an error, once (PayloadError Corrupt, DuplicateAnnounce [thorough: all four]); a rejected apply leaves the target's data untouched; afterwards the harness either retries on the same connection and reconnects when that fails, or reconnects at once, with client.state() and the target as the Client::new documentation prescribes; the rejected step is not judged (the property is conditional), every later finished step is: what the rejected step left behind (state or timing adopted, part of an update applied) must not make a later finished step end with other data than the source's; non-trivial = sequences in which the injected rejection fired and a later step finished");
+    let gaps = plain_gaps();
+    let versions: Vec<(u8, u8)> = if thorough { (0..=2u8).flat_map(|c| (0..=2u8).map(move |l| (c, l))).collect() } else { vec![(2, 2), (0, 0), (2, 1)] };
+    let kinds: Vec<u8> = if thorough { vec![0, 1, 2, 3] } else { vec![0, 1] };
+    let mut bases: Vec<Scn> = Vec::new();
+    for &(civ, limit) in &versions { for route in ROUTES { for current in [true, false] {
+        for a in &gaps { for b in &gaps { for c in &gaps {
+            let mut ops = rounds(&[a, b, c]); ops.push(SOp::Step(0)); ops.push(SOp::Step(0));
+            bases.push(Scn { space: "fail", base: 1000, style: Style::Net, order: ORDERS[(civ + limit) as usize % 3], link: Transport::Roomy,
+                clients: vec![SClient { civ, limit, route, current }], ops, fail: None, cont: Cont::Reconnect });
+        }}}
+    }}}
+    let fired_then_ok = |out: &SeqOut| {
+        let at = out.steps.iter().position(|s| s.fired.is_some());
+        at.is_some_and(|p| out.steps[p + 1..].iter().any(|s| s.result == StepResult::Ok))
+    };
+    let tally = bases.par_iter().map(|base| {
+        let (mut t, clean) = seq_run(base, |_| false);
+        if let Some(clean) = clean {
+            let mut plans: Vec<(bool, u32)> = (0..clean.pushes).map(|n| (false, n)).collect();
+            plans.extend((0..clean.applies).map(|n| (true, n)));
+            for (apply, n) in plans { for &k in &kinds { for cont in [Cont::SameConn, Cont::Reconnect] {
+                let scn = Scn { fail: Some((apply, n, k)), cont, ..base.clone() };
+                let (t2, out) = seq_run(&scn, fired_then_ok);
+                if out.is_some_and(|o| !o.steps.iter().any(|s| s.fired.is_some())) { t.machinery.push(format!("{}: the injected rejection never fired", scn.render())) }
+                t.absorb(t2);
+            }}}
+        }
+        t
+    }).reduce(SeqTally::default, |mut a, b| { a.absorb(b); a });
+    let n = tally.evals;
+    seq_report(ctx, &sp, tally, 1000, &format!("{} sequences x every push_update / apply call of the clean run x {} errors x 2 continuations = {n} executions", bases.len(), kinds.len()));
+}
+
+/// `rtr.abandoned_step`.
+fn cancel_space(ctx: &Ctx, thorough: bool) {
+    let sp = ctx.space("rtr.abandoned_step",
+        "a client step whose future is dropped while Pending, at EVERY await point: for every sequence root . (gap . client step) x 3 . step . step (gaps as in rtr.rejecting_target without the new session [thorough: with]) the step of round 1, 2 or 3 is polled until it has returned Pending k times and is then dropped, for k = 1, 2, ... until the step completes before the k-th Pending; transports: roomy pipes (await points between PDUs), server->client pipes of 16 and 7 octets (inside PDUs), client->server pipe of 7 octets (inside the query) [thorough: + 1-octet pipes]; versions 2/2 and 1/1 [thorough: + 0/0, 2/0]; routes step and reset+apply; afterwards the client is stepped again on the same connection (reconnect when that fails) or reconnected at once with client.state() and the target; every later finished step is judged by the three clauses against the End of Data the client consumed in it; non-trivial = sequences in which the step really was dropped while Pending and a later step finished");
+    let gaps: Vec<Vec<SOp>> = if thorough { plain_gaps() } else { plain_gaps()[..3].to_vec() };
+    let links: Vec<Transport> = if thorough { vec![Transport::Roomy, Transport::S16, Transport::S7, Transport::C7, Transport::S1C1] }
+        else { vec![Transport::Roomy, Transport::S16, Transport::S7, Transport::C7] };
+    let versions: Vec<(u8, u8)> = if thorough { vec![(2, 2), (1, 1), (0, 0), (2, 0)] } else { vec![(2, 2), (1, 1)] };
+    let mut bases: Vec<(Scn, usize)> = Vec::new();
+    for &(civ, limit) in &versions { for &link in &links { for route in [Route::Step, Route::ResetApply] { for cont in [Cont::SameConn, Cont::Reconnect] {
+        // the narrow pipes multiply the await points: they get the 2/2 configuration only (quick)
+        if !thorough && link != Transport::Roomy && (civ, limit) != (2, 2) { continue }
+        for a in &gaps { for b in &gaps { for c in &gaps {
+            let mut ops = rounds(&[a, b, c]); ops.push(SOp::Step(0)); ops.push(SOp::Step(0));
+            let step_at: Vec<usize> = ops.iter().enumerate().filter(|(_, o)| o.is_step()).map(|(i, _)| i).collect();
+            for r in 0..3 {
+                bases.push((Scn { space: "cancel", base: 1000, style: Style::Net, order: ORDERS[(civ as usize + r) % 3], link,
+                    clients: vec![SClient { civ, limit, route, current: true }], ops: ops.clone(), fail: None, cont }, step_at[r]));
+            }
+        }}}
+    }}}}
+    const K_MAX: u16 = 2000;
+    let dropped_then_ok = |out: &SeqOut| {
+        let at = out.steps.iter().position(|s| s.cancelled);
+        at.is_some_and(|p| out.steps[p + 1..].iter().any(|s| s.result == StepResult::Ok && !s.cancelled))
+    };
+    let tally = bases.par_iter().map(|(base, at)| {
+        let mut t = SeqTally::default();
+        for k in 1..=K_MAX {
+            let mut scn = base.clone();
+            scn.ops[*at] = SOp::Cancel(0, k);
+            let (t2, out) = seq_run(&scn, dropped_then_ok);
+            t.absorb(t2);
+            let dropped = out.as_ref().is_some_and(|o| o.steps.iter().any(|s| s.cancelled));
+            if !dropped { break }
+            if k == K_MAX { t.machinery.push(format!("{}: step still pending after {K_MAX} polls", scn.render())) }
+        }
+        t
+    }).reduce(SeqTally::default, |mut a, b| { a.absorb(b); a });
+    let n = tally.evals;
+    seq_report(ctx, &sp, tally, 1000, &format!("{} (sequence, abandoned step) pairs x every await point of that step = {n} executions", bases.len()));
+}
+
+// ======================================================================
 // The explorer
 // ======================================================================
 
@@ -2050,7 +2885,7 @@ fn main() {
     let ctx = Ctx::new("C06", "model_checking");
     install_hook();
     ctx.assume("tokio (current-thread runtime, paused clock, io::duplex, broadcast) is trusted");
-    ctx.assume("session ids and serial numbers are opaque tokens to client and server (compared and copied, never computed with); the canonical key keeps only their relations and the position relative to the 2^32 wrap");
+    ctx.assume("rtr.histories only: session ids and serial numbers are opaque tokens to client and server (compared and copied, never computed with); its canonical key keeps only their relations and the position relative to the 2^32 wrap. The assumption is not made by rtr.serial_distance, which enumerates the serial distance between the client's stored state and the End-of-Data state (small, half the circle, backwards, across 0 and 2^31) over three judged steps without merging states");
     ctx.assume("a connection is not used again after a step returned Err (Client::run stops there); the harness reconnects with client.state() and the target, as the Client::new documentation prescribes");
     ctx.assume("the version-limited peer is played by a proxy in front of the real server: it answers a too-high first query with Error Report code 4 in its own version (mode error) or answers in its own lower version (mode lower)");
 
@@ -2062,6 +2897,24 @@ fn main() {
             match ScaleCase::parse(&wit) {
                 None => ctx.machinery_error(format!("cannot parse replay witness {wit}")),
                 Some(case) => { let (class, viols) = scale_judge(&case); println!("replay: {} -> {class}", case.render()); for (o, d) in viols { ctx.fail(o, case.render(), d) } }
+            }
+            ctx.finish();
+        }
+        if wit.starts_with("seq ") {
+            match Scn::parse(&wit) {
+                None => ctx.machinery_error(format!("cannot parse replay witness {wit}")),
+                Some(scn) => match seq_exec(&scn) {
+                    Err(p) => ctx.fail("C06.step.no_panic", scn.render(), p.join(" | ")),
+                    Ok(out) => {
+                        for m in &out.machinery { ctx.machinery_error(m.clone()) }
+                        for s in &out.steps {
+                            println!("replay: op #{} client {} [{}]{} {}", s.op, (b'A' + s.who) as char, s.class,
+                                s.fired.as_ref().map(|f| format!(" (target rejected {f})")).unwrap_or_default(), s.transcript);
+                            for (o, d) in &s.verdicts { ctx.fail(o, scn.render_upto(s.op + 1), d.clone()) }
+                        }
+                        for f in &out.api_faults { ctx.fail("C06.api.accessors", scn.render(), f.clone()) }
+                    }
+                },
             }
             ctx.finish();
         }
@@ -2089,6 +2942,17 @@ fn main() {
     let t_scale = WallInstant::now();
     scale_space(&ctx, thorough);
     println!("C06: scale space wall={:.1}s", t_scale.elapsed().as_secs_f64());
+
+    // the sequence spaces (small, enumerated in full; they do not share the
+    // wall-clock safety net of the history exploration either)
+    let only = std::env::var("C06_ONLY").ok();   // measuring aid: run one sequence space only
+    for (name, f) in [("dist", distance_space as fn(&Ctx, bool)), ("pair", pair_space), ("fail", failure_space), ("cancel", cancel_space)] {
+        if only.as_deref().is_some_and(|o| o != name) { continue }
+        let t = WallInstant::now();
+        f(&ctx, thorough);
+        println!("C06: sequence space {name} wall={:.1}s", t.elapsed().as_secs_f64());
+    }
+    if only.is_some() { ctx.finish() }
 
     // The depth bound is far beyond the depth at which the frontier empties
     // (13 / 14 measured): both tiers run to the fixpoint; the wall-clock cap
